@@ -37,6 +37,10 @@ def main():
     for sid in ids:
         d = os.path.join(sdir, sid)
         meta = json.load(open(os.path.join(d, "meta.json")))
+        if meta.get("retired") and not args:
+            results[sid] = {"property": meta["property"], "retired": meta["retired"]}
+            print("%-22s retired" % sid)
+            continue
         props = meta.get("checks") or [meta["property"]]
         patch = os.path.join(d, "patch.diff")
         rc, out = sh(["git", "apply", "--whitespace=nowarn", patch], cwd=REPO)
